@@ -131,6 +131,21 @@ func gobSources(tier string) []*Dec {
 			}
 		}
 	}
+	// Decimals whose mantissa is longer than the precision needs (extra low zero words): obtained by
+	// decoding a valid encoding extended by whole zero words, which denotes the same value
+	nb := len(out)
+	for i := 0; i < nb; i += 7 {
+		enc, err := out[i].GobEncode()
+		if err != nil || len(enc) <= 10 {
+			continue
+		}
+		for _, extra := range []int{8, 16} {
+			d := new(Dec)
+			if d.GobDecode(append(append([]byte(nil), enc...), make([]byte, extra)...)) == nil && d.Cmp(out[i]) == 0 {
+				out = append(out, d)
+			}
+		}
+	}
 	return out
 }
 
